@@ -166,7 +166,7 @@ func Append(err error, errs ...error) *Error {
 					next = localRoot
 				}
 			default:
-				if typedErr != nil {
+				if !isNil(typedErr) {
 					next = &Error{
 						message: typedErr.Error(),
 						stack:   callStack(),
